@@ -46,7 +46,9 @@ def inferred(rng, n):
         elif r < 0.33:
             out.append(0.0)
         elif r < 0.40:
-            out.append(rng.choice([1e-300, -1e-300, 1e300, -1e300, 1e-12, -1e12]))
+            # tiny, huge, and the edges of the float format: subnormal, smallest normal, largest finite, -0.0
+            out.append(rng.choice([1e-300, -1e-300, 1e300, -1e300, 1e-12, -1e12, 5e-324, -5e-324, 2.2250738585072014e-308,
+                                   1.7976931348623157e308, -1.7976931348623157e308, -0.0]))
         else:
             out.append(rng.uniform(-5, 60))
     return out
@@ -227,7 +229,7 @@ def one_case(ctx, prog, label="gen", explicit_wm=None):
             if not ok:
                 ctx.fail("C12-wrong-prior", f"prior at path {'.'.join(key)} is not the one derived from the value inferred for that path", case,
                          {"path": key, "got": readable(g), "expected_one_of": [readable(e) for e in exp_by_rank[j]][:3], "inferred": xs[j]})
-            if g["kind"] in ("Gaussian", "LogGaussian") and g.get("sigma") is not None and h2f(g["sigma"]) < 0:
+            if g["kind"] in ("Gaussian", "LogGaussian") and g.get("sigma") is not None and not (h2f(g["sigma"]) >= 0):
                 ctx.fail("C12-negative-width", "prior passing produced a negative width", case, readable(g))
             if mode["k"] in ("means", "uniform") and got.id != p.id:
                 ctx.fail("C12-id-not-kept", "the new prior does not keep the id of the parameter it replaces", case, {"path": key})
